@@ -13,6 +13,17 @@ Engines
     interleaved transpilations in one process, fresh processes - all byte-identical for every program inside
     the guard.
 
+  * statelessness across calls (harness/props/c10_roles.py, coq/Lang/DevSession.v): the inventory also lists every USE of a
+    module-level mutable object (read-only / escapes - e.g. handed out as a `ctx.setdefault(key, M)` / `ctx.get(key, M)` default - /
+    mutated, local aliases followed), the default of every setdefault/get site and the keys every parse() starts with
+    (C10_module_objects_never_escape, C10_no_shared_default, C10_ctx_seeded_fresh); the configuration read off the source
+    instantiates the session model of the device-name registries, which is stateless iff no lazily created key takes a module-level
+    default (C10_session_stateless, C10_shared_default_refuted, C10_session_stateless_current_source); the model runs against real
+    sessions of device programs that re-use names; the oracle transpiles, in one process, every ordered pair of ROLES of one
+    name (25 roles: device classes, scalars, lists, functions, parameters, loop variables, callbacks ...) in two unrelated programs,
+    pool programs in several orders, parse()/emit() interleavings, the same Program emitted twice, concurrent threads, and
+    compares with the text of the program alone; a failing pair is confirmed in fresh processes and reported as the replay.
+
 The harness recognises two shapes of the source (promotion_shape): "pinned" - the hoisting order of
 _promote_branch_decls follows the set iteration order (known finding F-C10-promotion-order; the byte-identity oracle
 is applied inside the model's guard only); "repaired" - it no longer does and the inventory shows no unsorted set
@@ -31,8 +42,8 @@ from harness import common as C
 
 META = {
     "id": "C10",
-    "technique": "Coq proof (set-iteration oracle model of variable promotion; sorted() sites; inventory of set iterations and module state regenerated from the source by an ast walker) + extracted-model correspondence with parse()+emit() and with _promote_branch_decls under dictated iteration orders + sha256 oracle across PYTHONHASHSEED subprocesses / dictated set iteration orders / repeated / interleaved transpilations",
-    "level_text": "Theorems C10_* (coq/Props/C10.v): sorted() sites are order independent; promotion is independent of the set-iteration oracle for constructs (and whole programs of the modelled fragment, C10_partial) whose branches each contribute at most one not-yet-recorded new name, and refuted beyond (C10_promotion_order_refuted, C10_two_names_in_a_branch_refuted: the output order does depend on the oracle - known finding); being inside the guard does not depend on the oracle; only the ORDER can vary (C10_result_is_permutation); the candidate repair (sorted() at the four sites) is order independent without guard and conservative inside it; the rank oracles used by the harness are permutations and reach every order; every set iteration found in the current parser.py/emitter.py by the translator is sorted, order-insensitive or modelled (C10_sites_accounted), no function mutates module-level state (C10_no_module_state), only pure modules are imported and no hash/id/open/eval... is used (C10_imports_are_pure, C10_no_ambient_builtins). The model is run against the real parse()+emit() skeleton and against _promote_branch_decls with dictated orders; the property itself is tested by sha256 across hash seeds, dictated set orders, other CPython builds, processes, repetitions and interleavings.",
+    "technique": "Coq proof (set-iteration oracle model of variable promotion; sorted() sites; inventory of set iterations and module state regenerated from the source by an ast walker) + extracted-model correspondence with parse()+emit() and with _promote_branch_decls under dictated iteration orders + sha256 oracle across PYTHONHASHSEED subprocesses / dictated set iteration orders / process environments / repeated / interleaved transpilations; session model of the ctx registries with a module-level store (statelessness theorem + refutation for a shared default) instantiated by the regenerated inventory of module-level mutable objects, setdefault/get defaults and seeded ctx keys; one-name-two-roles sessions (every ordered pair of 25 roles), parse/emit interleavings, concurrent threads",
+    "level_text": "Theorems C10_* (coq/Props/C10.v): sorted() sites are order independent; promotion is independent of the set-iteration oracle for constructs (and whole programs of the modelled fragment, C10_partial) whose branches each contribute at most one not-yet-recorded new name, and refuted beyond (C10_promotion_order_refuted, C10_two_names_in_a_branch_refuted: the output order does depend on the oracle - known finding); being inside the guard does not depend on the oracle; only the ORDER can vary (C10_result_is_permutation); the candidate repair (sorted() at the four sites) is order independent without guard and conservative inside it; the rank oracles used by the harness are permutations and reach every order; every set iteration found in the current parser.py/emitter.py by the translator is sorted, order-insensitive or modelled (C10_sites_accounted), no function mutates module-level state (C10_no_module_state), only pure modules are imported and no hash/id/open/eval... is used (C10_imports_are_pure, C10_no_ambient_builtins). Statelessness across calls: the session model of the device-name registries (coq/Lang/DevSession.v: ctx keys created by setdefault / read by get, a module-level store threaded through the session) gives every program its own translation whatever was transpiled before, provided no lazily created key takes a module-level object as default (C10_session_stateless, C10_parse_leaves_module_store), one shared default suffices to refute it (C10_shared_default_refuted, witness x = SerialMonitor(..) then x = Potentiometer(..); y = x.read()), and the configuration regenerated from the current source is inside the guard (C10_current_source_defaults_fresh, C10_session_stateless_current_source); no module-level mutable object of the three files is mutated or escapes (C10_module_objects_never_escape, C10_no_shared_default, C10_ctx_seeded_fresh). The model is run against the real parse()+emit() skeleton and against _promote_branch_decls with dictated orders; the property itself is tested by sha256 across hash seeds, dictated set orders, other CPython builds, processes, repetitions and interleavings.",
     "level_note": "Trusted: Coq kernel, translator harness/gen/setsites.py (syntactic, fail-closed ast walker), extraction, OCaml driver, CPython's PYTHONHASHSEED as the source of set-order variation. CPython set internals are over-approximated by an arbitrary permutation oracle; absence of module-level state is shown statically for the two transpiler files (ast walk) and by observation (repeated / interleaved transpilations), not by proof about CPython.",
     "design_ref": "DESIGN.md section 4 C10, Appendix B.1, B.3",
 }
@@ -694,14 +705,19 @@ def device_program(rng, skeleton=None, skeleton_ty=None):
 OTHER_PYTHONS = ["/usr/bin/python3.11", "/root/miniconda/bin/python", "/root/.pyenv/versions/3.10.13/bin/python"]
 
 
-def transpile(sources, seed, texts=False, script=None, adv=None, python=None):
+# another process environment: locale, time zone, home, terminal width, and the verification hook switched off
+OTHER_ENV = {"LANG": "tr_TR.UTF-8", "LC_ALL": "C", "TZ": "Pacific/Kiritimati", "HOME": "/nonexistent", "COLUMNS": "20", "USER": "someone-else",
+             "REDUINO_VERIF": "0", "PYTHONUTF8": "1"}
+
+
+def transpile(sources, seed, texts=False, script=None, adv=None, python=None, env=None):
     payload = {"mode": "session" if script is not None else "transpile", "sources": sources, "texts": texts}
     if script is not None:
         payload["script"] = script
     if adv:
         payload["adv"] = adv
     kw = {"python": python} if python else {}
-    r = C.run_impl("c10_impl.py", payload, env_extra={"PYTHONHASHSEED": str(seed)}, timeout=1200, **kw)
+    r = C.run_impl("c10_impl.py", payload, env_extra={"PYTHONHASHSEED": str(seed), **(env or {})}, timeout=1200, **kw)
     if str(r.get("hashseed")) != str(seed):
         raise RuntimeError(f"runner reports hash seed {r.get('hashseed')} instead of {seed}")
     if (r.get("adv") or None) != (adv or None):
@@ -715,12 +731,16 @@ def run_variant(sources, v, seed0, texts=False):
         return transpile(sources, v[1], texts=texts)
     if v[0] == "py":
         return transpile(sources, v[2], texts=texts, python=v[1])
+    if v[0] == "env":
+        return transpile(sources, seed0, texts=texts, env=OTHER_ENV)
     return transpile(sources, seed0, texts=texts, adv=v[1])
 
 
 def vname(v):
     if v[0] == "py":
         return f"{v[1]} PYTHONHASHSEED={v[2]}"
+    if v[0] == "env":
+        return "environment " + " ".join(f"{k}={x}" for k, x in sorted(OTHER_ENV.items()))
     return f"PYTHONHASHSEED={v[1]}" if v[0] == "seed" else f"set-order={v[1]}"
 
 
@@ -847,7 +867,7 @@ def run(ctx: C.Ctx):
 
     # ------------------------------------------------------------------ transpile under every seed (one process per seed)
     adv_keys = ["asc", "desc", "k%d" % rng.randrange(10 ** 6)] + (["k%d" % rng.randrange(10 ** 6) for _ in range(3)] if thorough else [])
-    variants = [("seed", sd) for sd in seeds] + [("adv", k) for k in adv_keys]
+    variants = [("seed", sd) for sd in seeds] + [("adv", k) for k in adv_keys] + [("env", "other")]
     v0 = variants[0]
     per_seed = {}
     for v in variants:
@@ -876,6 +896,9 @@ def run(ctx: C.Ctx):
         diff = udiff(ta.get("cpp", ""), tb.get("cpp", ""), vname(a), vname(b))
         if b[0] == "py":
             how = f"PYTHONHASHSEED={a[2]} vs {b[2]} with interpreter {b[1]} (PYTHONPATH=/repo/src): emit(parse(program))"
+        elif b[0] == "env":
+            how = ("same hash seed, another process environment: env " + " ".join(f"{k}={x}" for k, x in sorted(OTHER_ENV.items())) +
+                   " PYTHONPATH=/repo/src python -c '... print(emit(parse(open(sys.argv[1]).read())))' program.py")
         elif b[0] == "seed":
             how = (f"PYTHONHASHSEED={a[1]} vs {b[1]}: PYTHONPATH=/repo/src python -c 'import sys; from Reduino.transpile.parser import parse; "
                    "from Reduino.transpile.emitter import emit; print(emit(parse(open(sys.argv[1]).read())))' program.py")
@@ -895,7 +918,10 @@ def run(ctx: C.Ctx):
             evaluations += 1
             sb = per_seed[v]["results"][i]["sha"]
             if sb != p["ref"]["sha"]:
-                if v[0] == "seed":
+                if v[0] == "env":
+                    report("environment", p, v0, v, p["ref"]["sha"], sb,
+                           "emitted C++ differs between two processes that differ only in their environment (locale, time zone, home, user, hook switch)")
+                elif v[0] == "seed":
                     report("hashseed", p, v0, v, p["ref"]["sha"], sb,
                            "emitted C++ differs between two hash seeds for a program inside the guard")
                 else:
@@ -1158,6 +1184,13 @@ def run(ctx: C.Ctx):
         dist["sorted_site_sizes"] = {w: sorted({len(o) for (dd, ww, o) in back if ww == w}) for w in ("button polls", "ultrasonic helpers", "LCD ticks")}
     dist["sorted_cases"] = n_sorted
 
+    # ------------------------------------------------------------------ property oracle 3 + correspondence 4: one NAME, two roles,
+    # two programs, one process (every ordered pair of roles; pool sessions; parse/emit interleavings; Lang/DevSession.v fragment)
+    from harness.props import c10_roles
+    ev_roles, nt_roles, dist_roles = c10_roles.run_collisions(ctx, C, seeds[0], have_model)
+    evaluations += ev_roles
+    dist["name_collisions"] = dist_roles
+
     # ------------------------------------------------------------------ known findings
     for f in load_findings(ctx):
         if f.get("kind") == "fixed" or f.get("property") != "C10":
@@ -1181,21 +1214,22 @@ def run(ctx: C.Ctx):
     ctx.coverage.update({
         "evaluations": evaluations + n_corr + n_prom + n_sorted,
         "distinct_nontrivial": len({p["src"] for p in progs if p.get("in_guard") and (p["origin"] != "device")}
-                                   & {s["src"] for s in skels if sum(1 for _ in _iter_hoists(s.get("model0", {}))) > 0}) + multi + n_prom,
-        "rule": "skeleton programs: templates (k = 0..6 names first assigned in an if / if-else / if-elif-else / while / for / try body, at top level, in a function, in the main loop, nested) + seeded random nested programs; device programs: random subsets of every device class with 0..6 instances, callbacks, lists, multi-signature functions, tuple swaps; mixed = both. Every program is transpiled in one subprocess per hash seed and per dictated set order (the name `set` of parser.py/emitter.py bound to a subclass iterating sorted / reverse sorted / in a keyed pseudo-random order), then in one process twice in a row, in reverse order between unrelated programs, shuffled, and (a sample) in fresh processes; sha256 of the text is compared. Non-trivial = in-guard programs that hoist at least one declaration, device programs whose sorted sites have >= 2 elements, and every dictated-order promotion case.",
+                                   & {s["src"] for s in skels if sum(1 for _ in _iter_hoists(s.get("model0", {}))) > 0}) + multi + n_prom + nt_roles,
+        "rule": "skeleton programs: templates (k = 0..6 names first assigned in an if / if-else / if-elif-else / while / for / try body, at top level, in a function, in the main loop, nested) + seeded random nested programs; device programs: random subsets of every device class with 0..6 instances, callbacks, lists, multi-signature functions, tuple swaps; mixed = both. Every program is transpiled in one subprocess per hash seed and per dictated set order (the name `set` of parser.py/emitter.py bound to a subclass iterating sorted / reverse sorted / in a keyed pseudo-random order), then in one process twice in a row, in reverse order between unrelated programs, shuffled, and (a sample) in fresh processes; sha256 of the text is compared. Name collisions (c10_roles.py): for every ordered pair (a, b) of 25 roles an identifier can have, with a name of its own, the sessions `A B B'` / `all A, then B B' reversed` against `B B'` alone (A = name in role a, B = same name in role b with all probes of b, B' = B + one probe of a); 60 (240) pool programs giving 2-4 of 6 pool names random roles, in 3 (6) orders in one process and after a module reset; parse/emit interleavings (p_i p_j e_j e_i, p_i p_j e_i e_j e_i, p_i e_i e_i, p_i t_j e_i); 4 concurrent threads; 220 (900) + 60 device-registry programs of the DevSession fragment in two orders, compared with transl_dev. Non-trivial = in-guard programs that hoist at least one declaration, every role pair, pool program and accepted device-registry program, device programs whose sorted sites have >= 2 elements, and every dictated-order promotion case.",
         "samples": [skels[0]["src"], skels[len(skels) // 2]["src"], devs[0]["src"][:1500]],
         "distribution": dist,
         "guard": "model-decided (Order.guard on every construct met by Order.transl, i.e. o_ok): every if/elif/else/try/except branch contributes at most one name that is neither declared before the construct nor already recorded by an earlier branch of it (names hoisted out of nested constructs included), and every new name of a while/for body is met as a declaration node in the body; programs outside the guard are still used for the correspondence but not for the byte-identity oracle (known finding F-C10-promotion-order)",
         "unmodelled": ["CPython set/dict internals (over-approximated by an arbitrary permutation per construct)",
                        "_promotion_cpp_types staleness across scopes (generated names are type-stable except in flat if/try templates)",
                        "everything of the translation except declarations and block structure (expression text, devices) - covered by the sha256 oracle only",
-                       "absence of module-level state / ambient inputs: static ast inventory (module-level bindings mutated by name, mutable defaults, cache decorators, imports, hash/id/open/eval...) + observation; state reached only through aliases (e.g. a shallow copy of a module-level dict) is found by the session oracle only",
+                       "absence of module-level state / ambient inputs: static ast inventory (module-level and class-level mutable objects: mutated by name, mutated through a followed local alias, or escaping into a call / container / return value / default argument; mutable defaults, cache decorators, imports, hash/id/open/eval...) + observation; the alias analysis is intra-procedural and flow-insensitive: an object that escapes is reported, what the receiver does with it is not followed; state kept in attributes of imported classes/modules or in closures created at import time is found by the session oracle only",
+                       "the session model (Lang/DevSession.v) covers the device-name registries and the value-returning device methods read/read_us/measure_distance/is_pressed/get_state/get_brightness at column 0; every other per-call table (functions, signatures, helpers, list_info, tmp_counter ...) is covered by the role-pair oracle and the inventory only",
                        "platform differences other than hash seeds (one CPython build here)"],
-        "trusted_base": C.COMMON_TRUSTED + ["harness/gen/setsites.py (syntactic set-kind inference over parser.py/emitter.py, fail-closed)",
+        "trusted_base": C.COMMON_TRUSTED + ["harness/props/c10_roles.py (role templates, session scripts, fresh-process confirmation of a failing pair)","harness/gen/setsites.py (syntactic set-kind inference over parser.py/emitter.py, fail-closed)",
                                             "harness/impl/c10_impl.py (runs parse()+emit(); OrderedNames dictates the iteration order of `var_declared - base`; AdvSet dictates the iteration order of every set built through the name `set` in parser.py/emitter.py - set displays/comprehensions keep CPython's order)",
                                             "PYTHONHASHSEED as the only source of set-order variation exercised"],
     })
-    ctx.assumptions += ["every iteration order of a Python set is some permutation of its elements (perm_oracle)",
+    ctx.assumptions += ["a module-level object handed to a call / stored / returned may be mutated by whoever receives it (the inventory reports the escape, it does not follow it)","every iteration order of a Python set is some permutation of its elements (perm_oracle)",
                         "str hashing is the only hash-seed dependent ingredient of the transpiler's sets (their elements are str)"]
 
 
